@@ -103,6 +103,8 @@ def child_build(spec_json, which, path):
     from vf.props import c05
     spec = json.loads(spec_json)
     b = vbuild.build(spec, ids=c05.ids_for(spec, None if which == 'None' else which))
+    b.dsg.fingerprint()      # anything the graph memoises about its identity travels with the pickle
+    hash(b.dsg)
     with open(path, 'wb') as fp:
         pickle.dump(b.dsg, fp)
 
